@@ -10,12 +10,15 @@
 #include <morfuse/Common/OutputInfo.h>
 #include <morfuse/Common/membuf.h>
 #include <morfuse/Common/VerifHooks.h>
+#include <morfuse/Script/interfaces/file.h>
+#include <morfuse/Script/Archiver.h>
 #include "common.h"
 
 #include <cstdint>
 #include <cstdio>
 #include <cstdlib>
 #include <iostream>
+#include <map>
 #include <memory>
 #include <sstream>
 #include <string>
@@ -26,6 +29,25 @@ namespace vh {
 static thread_local int64_t g_clock = 1000;   // one clock per host thread (C20 runs several engines)
 static int64_t clockFn() { return g_clock; }
 
+// file management: scripts are served from memory by name (needed when an archive is loaded:
+// the engine re-opens every script it finds in the archive)
+struct MemFile : public mfuse::IFile {
+    std::string text;
+    mfuse::imemstream stream;
+    explicit MemFile(const std::string& t) : text(t), stream(text.data(), text.size()) {}
+    std::istream& getStream() noexcept override { return stream; }
+};
+struct MemFiles : public mfuse::IFileManagement {
+    std::map<std::string, std::string> files;
+    mfuse::IFile* OpenFile(const char* fname) override
+    {
+        auto it = files.find(fname);
+        if (it == files.end()) throw mfuse::FileExceptions::NotFound(fname);
+        return new MemFile(it->second);
+    }
+    void CloseFile(mfuse::IFile* file) noexcept override { delete file; }
+};
+
 struct Streams {
     std::ostringstream out, warn, err, dbg;
 };
@@ -33,6 +55,7 @@ struct Streams {
 // one engine instance with captured output
 struct Engine {
     Streams io;
+    MemFiles files;
     std::unique_ptr<mfuse::ScriptContext> ctx;
 
     explicit Engine(bool attachWarn = true, bool attachErr = true, bool attachDbg = true, bool attachOut = true)
@@ -47,12 +70,14 @@ struct Engine {
         if (attachErr) ctx->GetOutputInfo().SetOutputStream(mfuse::outputLevel_e::Error, &io.err);
         if (attachDbg) ctx->GetOutputInfo().SetOutputStream(mfuse::outputLevel_e::Debug, &io.dbg);
         ctx->GetSettings().SetDeveloperEnabled(true);
+        ctx->GetScriptInterfaces().fileManagement = &files;
     }
 
     mfuse::ScriptMaster& director() { return ctx->GetDirector(); }
 
     const mfuse::ProgramScript* compile(const std::string& name, const std::string& src, bool recompile = false)
     {
+        files.files[name] = src;
         mfuse::imemstream stream(src.data(), src.size());
         return director().GetProgramScript(name.c_str(), stream, recompile);
     }
